@@ -233,7 +233,7 @@ package datalog
 //@ ensures sets: t is Set ==> result == (len(t.(Set)) == len(s) && (forall j int :: 0 <= j && j < len(s) ==> memberOf(s[j], t.(Set))))
 
 //@ func (s Set) Intersect(t Set) (result Set)
-//@ serves C06 C10 C19
+//@ serves C03 C06 C10 C19
 //@ requires setWF(s) && setWF(t)
 //@ modifies nothing
 //@ loop 0 invariant fresh(arr(result)) && setWF(result)
@@ -244,7 +244,7 @@ package datalog
 //@ ensures complete: forall j int :: { s[j] } 0 <= j && j < len(s) && memberOf(s[j], t) ==> memberOf(s[j], result)
 
 //@ func (s Set) Union(t Set) (result Set)
-//@ serves C06 C10 C19
+//@ serves C03 C06 C10 C19
 //@ requires setWF(s) && setWF(t)
 //@ modifies nothing
 //@ loop 0 invariant fresh(arr(result)) && setWF(result) && len(result) >= len(s)
@@ -334,7 +334,7 @@ package datalog
 // expression evaluation
 
 //@ func (e *Expression) Evaluate(values map[Variable]*Term, symbols *SymbolTable) (res Term, err error)
-//@ serves C06 C10 C19
+//@ serves C03 C06 C10 C19
 //@ requires e != nil && symbols != nil && exprWF(*e) && bindingsWF(values)
 //@ modifies *symbols, spare(*symbols)
 //@ loop 0 invariant ptr: s != nil && fresh(s)
@@ -382,7 +382,7 @@ package datalog
 //@ ensures res.Name == p.Name && len(res.Terms) == len(p.Terms) && fresh(arr(res.Terms)) && (forall i int :: 0 <= i && i < len(p.Terms) ==> res.Terms[i] == p.Terms[i])
 
 //@ func (s *FactSet) Insert(f Fact) (result bool)
-//@ serves C05 C10 C12 C19
+//@ serves C03 C05 C10 C12 C19
 //@ requires s != nil && factsWF(*s) && predWF(f.Predicate)
 //@ modifies *s, spare(*s)
 //@ loop 0 invariant forall j int :: 0 <= j && j < #i ==> !predEq(old((*s)[j].Predicate), f.Predicate)
@@ -408,7 +408,7 @@ package datalog
 //@ ensures exhausted_state: !result ==> *current == 0 && (*indexes)[0] == len(*facts) - 1
 
 //@ func (s *FactSet) InsertAll(facts []Fact)
-//@ serves C05 C10 C12 C19
+//@ serves C03 C05 C10 C12 C19
 //@ requires s != nil && factsWF(*s) && (forall k int :: { facts[k] } 0 <= k && k < len(facts) ==> predWF(facts[k].Predicate))
 //@ requires arr(facts) != arr(*s) || len(facts) == 0
 //@ modifies *s, spare(*s)
@@ -425,7 +425,7 @@ package datalog
 // variable bindings
 
 //@ func (m MatchedVariables) Insert(k Variable, v Term) (result bool)
-//@ serves C05 C10 C19
+//@ serves C03 C05 C10 C19
 //@ requires m != nil && termWF(v) && partialBindingsWF(m)
 //@ modifies mapof(m)
 //@ ensures keeps_wf: partialBindingsWF(m)
@@ -434,14 +434,14 @@ package datalog
 //@ ensures others: forall q Variable :: q != k ==> has(m, q) == old(has(m, q)) && m[q] == old(m[q])
 
 //@ func (m MatchedVariables) Complete() (result map[Variable]*Term)
-//@ serves C05 C10 C19
+//@ serves C03 C05 C10 C19
 //@ modifies nothing
 //@ loop 0 invariant forall q Variable :: seen(q) ==> m[q] != nil
 //@ ensures all_bound: result != nil ==> result == m && (forall q Variable :: has(m, q) ==> m[q] != nil)
 //@ ensures unbound: m != nil && result == nil ==> (exists q Variable :: has(m, q) && m[q] == nil)
 
 //@ func (m MatchedVariables) Clone() (res MatchedVariables)
-//@ serves C05 C10 C19
+//@ serves C03 C05 C10 C19
 //@ modifies nothing
 //@ loop 0 invariant res != nil && fresh(res) && (forall q Variable :: seen(q) ==> has(m, q) && has(res, q) && res[q] == m[q]) && (forall q Variable :: has(res, q) ==> seen(q))
 //@ ensures copy: res != nil && fresh(res) && (forall q Variable :: { dom(res, q) } has(res, q) == has(m, q)) && (forall q Variable :: { dom(res, q) } has(m, q) ==> res[q] == m[q])
@@ -517,7 +517,7 @@ package datalog
 // and Rule.Apply consumes its channel (DESIGN.md 2.6)
 
 //@ func combine$1(c chan)
-//@ serves C05 C10 C11 C19
+//@ serves C03 C05 C10 C11 C19
 //@ requires c != nil && facts != nil && factsWF(*facts) && predsWF(predicates) && exprsWF(expressions) && syms != nil && partialBindingsWF(variables)
 //@ modifies *syms, spare(*syms)
 //@ chan c yields x: x.error != nil || (x.MatchedVariables != nil && bindingsWF(x.MatchedVariables))
@@ -561,13 +561,13 @@ package datalog
 //@ loop 4 invariant !sentFinal(c) && tableGrown(*syms, old(*syms)) && tableGrownInLoop(*syms, pre(*syms)) && complete_vars != nil && bindingsWF(complete_vars)
 
 //@ func combine(variables MatchedVariables, predicates []Predicate, expressions []Expression, facts *FactSet, syms *SymbolTable) (res chan)
-//@ serves C05 C10 C11 C19
+//@ serves C03 C05 C10 C11 C19
 //@ requires facts != nil && factsWF(*facts) && predsWF(predicates) && exprsWF(expressions) && syms != nil && partialBindingsWF(variables)
 //@ modifies nothing
 //@ ensures res != nil
 
 //@ func (r Rule) Apply(facts *FactSet, newFacts *FactSet, syms *SymbolTable) (err error)
-//@ serves C05 C10 C11 C19
+//@ serves C03 C05 C10 C11 C19
 //@ requires facts != nil && factsWF(*facts) && newFacts != nil && factsWF(*newFacts) && ruleWF(r) && syms != nil && newFacts != facts && (arr(*facts) != arr(*newFacts) || cap(*newFacts) == 0)
 //@ modifies *newFacts, spare(*newFacts), *syms, spare(*syms)
 //@ loop 0 modifies mapof(variables)
@@ -591,7 +591,7 @@ package datalog
 // or for the deadline (C05 C11)
 
 //@ func World.Run$1()
-//@ serves C05 C10 C11 C19
+//@ serves C03 C05 C10 C11 C19
 //@ requires w != nil && w.facts != nil && factsWF(*w.facts) && rulesWF(w.rules) && syms != nil && ctx != nil
 //@ modifies *w.facts, spare(*w.facts), *syms, spare(*syms)
 //@ chan done sends_at_most 1
@@ -612,7 +612,7 @@ package datalog
 //@ loop 1 invariant (arr(newFacts) == pre(arr(newFacts)) && off(newFacts) == pre(off(newFacts)) && cap(newFacts) == pre(cap(newFacts)) && len(newFacts) >= pre(len(newFacts))) || freshInLoop(arr(newFacts))
 
 //@ func (w *World) Run(syms *SymbolTable) (err error)
-//@ serves C04 C05 C10 C11 C19
+//@ serves C03 C04 C05 C10 C11 C19
 //@ requires w != nil && w.facts != nil && factsWF(*w.facts) && rulesWF(w.rules) && syms != nil
 //@ modifies *w.facts, spare(*w.facts), *syms, spare(*syms)
 //@ ensures success_is_within_limits[C11]: err == nil ==> len(*w.facts) < w.runLimits.maxFacts
@@ -620,7 +620,7 @@ package datalog
 //@ ensures grown: err != ErrWorldRunLimitTimeout ==> tableGrown(*syms, old(*syms)) && ((arr(*w.facts) == old(arr(*w.facts)) && off(*w.facts) == old(off(*w.facts)) && cap(*w.facts) == old(cap(*w.facts)) && len(*w.facts) >= old(len(*w.facts))) || fresh(arr(*w.facts)))
 
 //@ func (w *World) QueryRule(rule Rule, syms *SymbolTable) (res *FactSet)
-//@ serves C04 C05 C10 C19
+//@ serves C03 C04 C05 C10 C19
 //@ requires w != nil && w.facts != nil && factsWF(*w.facts) && ruleWF(rule) && syms != nil
 //@ modifies *syms, spare(*syms)
 //@ ensures res != nil && fresh(res) && factsWF(*res) && *w.facts == old(*w.facts)
